@@ -10,7 +10,8 @@ Streams
              (registered / skipped + exception class, print_error reports in order,
              entity paths).
   projects : good files + one or two bad files placed first / middle / last (file order
-             forced by wrapping ford.fortran_project.find_all_files) -> real project lists
+             forced by naming them so that they sort there and by wrapping find_all_files; the model is fed
+             the order in which the per-file constructor was really entered) -> real project lists
              vs the model's `loadProject`; property oracle on the real code:
                O1 the good files' entity trees and their order in the project lists are the
                   same with and without the bad files,
@@ -574,8 +575,33 @@ def err_class(exc) -> str:
     return f"other:{type(exc).__name__}:{msg[:60]}"
 
 
+def disk_names(roles: list[str]) -> dict[str, str]:
+    """Names on disk for the files of one project, given in the intended reading order by
+    their role names (goodJ.f90, bad.f90, bad2.f90 ...).  The names *sort* in that order
+    (newer trees read `sorted(find_all_files(...))`), and a good file's name does not depend
+    on where the bad files are put: good j is `g{2j+1}_goodj.f90`, a bad file that is to be
+    read after j good files is `g{2j}{a,b,..}_<role>`."""
+    out = {}
+    ngood = 0
+    in_gap = 0
+    for r in roles:
+        if r.startswith("good"):
+            j = int(r[4:].split(".")[0])
+            out[r] = f"g{2 * j + 1}_{r}"
+            ngood = j + 1
+            in_gap = 0
+        else:
+            out[r] = f"g{2 * ngood}{chr(97 + in_gap)}_{r}"
+            in_gap += 1
+    if sorted(out.values()) != [out[r] for r in roles]:
+        raise common.Infra(f"disk names do not sort in the intended order: {roles} -> {out}")
+    return out
+
+
 class Real:
-    """Project(settings) on files written to a scratch directory, file order forced."""
+    """Project(settings) on files written to a scratch directory; the reading order is
+    forced both ways: the files are named so that they sort in the intended order, and
+    find_all_files is wrapped to return them in that order (trees that do not sort)."""
 
     def __init__(self, ford, root: Path):
         import ford.fortran_project as fp
@@ -587,7 +613,9 @@ class Real:
         self.n = 0
 
     def run(self, files: list[tuple[str, object]], dbg=True, force=False, watchdog=10):
-        """files: ordered (name, text|bytes).  Returns an observation dict."""
+        """files: ordered (role name, text|bytes).  Returns an observation dict in which every
+        file is called by its role name again; obs["read_order"] is the order in which the
+        implementation really started the per-file constructor."""
         fp, sf = self.fp, self.sf
         self.n += 1
         d = self.root / f"p{self.n % 8}"
@@ -595,16 +623,19 @@ class Real:
             for p in d.iterdir():
                 p.unlink()
         d.mkdir(exist_ok=True)
+        disk = disk_names([name for name, _ in files])
+        role = {v: k for k, v in disk.items()}
         for name, body in files:
             if isinstance(body, bytes):
-                (d / name).write_bytes(body)
+                (d / disk[name]).write_bytes(body)
             else:
-                (d / name).write_text(body)
-        order = [d / name for name, _ in files]
-        warns, excs = [], {}
+                (d / disk[name]).write_text(body)
+        order = [d / disk[name] for name, _ in files]
+        warns, excs, read_order = [], {}, []
         orig_find, orig_warn, orig_ff = fp.find_all_files, fp.warn, fp.Project._fortran_file
 
         def ff(self_, extension, filename, settings):
+            read_order.append(Path(filename).name)
             try:
                 return orig_ff(self_, extension, filename, settings)
             except Exception as e:  # noqa - recorded and re-raised unchanged
@@ -641,7 +672,15 @@ class Real:
             signal.signal(signal.SIGALRM, old_handler)
             fp.find_all_files, fp.warn, fp.Project._fortran_file = orig_find, orig_warn, orig_ff
             os.chdir(cwd)
-        out = buf.getvalue()
+        def unrole(text: str) -> str:
+            for dn, rn in role.items():
+                text = text.replace(dn, rn)
+            return text
+
+        out = unrole(buf.getvalue())
+        warns = [unrole(w) for w in warns]
+        excs = {role.get(k, k): v for k, v in excs.items()}
+        obs["read_order"] = [role.get(n_, n_) for n_ in read_order]
         reports: dict[str, list[str]] = {}
         unnamed = 0
         for m in re.finditer(r"^ERROR in file '([^']*)': (.*)$", out, re.M):
@@ -658,8 +697,8 @@ class Real:
             stdout=out[-400:],
         )
         if proj is not None:
-            obs["files"] = [f.name for f in proj.files]
-            obs["paths"] = {f.name: sorted(paths_of(f)) for f in proj.files}
+            obs["files"] = [role.get(f.name, f.name) for f in proj.files]
+            obs["paths"] = {role.get(f.name, f.name): sorted(paths_of(f)) for f in proj.files}
             obs["lists"] = {
                 "modules": [m.name for m in proj.modules],
                 "submodules": [m.name for m in proj.submodules],
@@ -672,7 +711,7 @@ class Real:
             stray = []
             for lst in ("modules", "submodules", "procedures", "programs", "blockdata"):
                 for e in getattr(proj, lst):
-                    fn = e.source_file.name
+                    fn = role.get(e.source_file.name, e.source_file.name)
                     if fn not in regfiles:
                         stray.append(f"{lst}:{e.name}@{fn}")
             obs["stray_entities"] = stray
@@ -887,10 +926,7 @@ def run(tier: str, seed: int, replay: str | None = None) -> int:
                 files.insert(min(k2, len(files)), (f"bad{n_ + 2}.f90", b2))
             c["files"] = files
             cfg = [b(c["dbg"]), b(c["force"]), b(repaired)]
-            proj = ["c20.project"] + cfg
-            for name, src in files:
-                proj += src_fields(name, src) + ["|"]
-            reqs.append(proj)
+            c["cfg"] = cfg
             for name, src in files:
                 if src["form"] == "stmts":
                     reqs.append(["c20.parse"] + cfg + stmt_fields(src["stmts"]))
@@ -905,8 +941,6 @@ def run(tier: str, seed: int, replay: str | None = None) -> int:
                                {"stream": "reader", "lines": c["bad"]["text"].splitlines(), "model": r[:3]})
         ri = 0
         for c in cases:
-            c["m_proj"] = resp[ri]
-            ri += 1
             c["m_file"] = {}
             for name, src in c["files"]:
                 if src["form"] == "stmts":
@@ -930,6 +964,29 @@ def run(tier: str, seed: int, replay: str | None = None) -> int:
             files = [(name, texts[name] if name in texts else src_text(src, lrng)) for name, src in c["files"]]
             obs = real.run(files, c["dbg"], c["force"])
             c["real_skipped"] = (not obs["hang"] and obs["escaped"] is None and "bad.f90" not in obs.get("files", ["bad.f90"]))
+            c["obs"], c["run_files"] = obs, files
+        # ------------------------------------------------------------ project model, fed with the order
+        # in which the implementation really read the files (files it never reached keep their place)
+        preqs = []
+        n_misplaced = 0
+        for c in cases:
+            intended = [n_ for n_, _ in c["files"]]
+            read = [n_ for n_ in c["obs"]["read_order"] if n_ in intended]
+            order_used = read + [n_ for n_ in intended if n_ not in read]
+            if order_used != intended:
+                n_misplaced += 1
+            srcs = dict(c["files"])
+            proj = ["c20.project"] + c["cfg"]
+            for n_ in order_used:
+                proj += src_fields(n_, srcs[n_]) + ["|"]
+            preqs.append(proj)
+        for c, r in zip(cases, drv.batch(preqs)):
+            c["m_proj"] = r
+        rep.coverage["cases_read_in_another_order_than_intended"] = n_misplaced
+        # ------------------------------------------------------------ compare
+        for ci, c in enumerate(cases):
+            texts, base_obs = baselines[(c["gi"], c["dbg"], c["force"])]
+            obs, files = c["obs"], c["run_files"]
             n_cases += 1
             bad = c["bad"]
             bump(hist, bad["how"].split("@")[0].split(":")[0])
@@ -1128,8 +1185,9 @@ def e2e_stream(rep, rng, cases, baselines, n, seed):
                 digests.append(base_digest[c["gi"]])
                 continue
             with common.scratch_dir() as d:
-                pf = e2e.write_project(d, {n_: t for n_, t in variant}, {"incl_src": "true"})
-                order = [d / "src" / n_ for n_, _ in variant]
+                disk = disk_names([n_ for n_, _ in variant])
+                pf = e2e.write_project(d, {disk[n_]: t for n_, t in variant}, {"incl_src": "true"})
+                order = [d / "src" / disk[n_] for n_, _ in variant]
                 fp.find_all_files = lambda s, order=order: list(order)
 
                 def on_alarm(signum, frame):
